@@ -161,7 +161,7 @@ func spellable(v reflect.Value) reflect.Value {
 // MarshalText and parses it back with the type's own UnmarshalText (the
 // documented conversion); the parsed-back value is what the original leaf is
 // expected to hold.
-func marshalText(v reflect.Value) (string, reflect.Value, error) {
+func marshalText(v reflect.Value, pad int) (text string, back reflect.Value, rejected bool, err error) {
 	ptr := v.Kind() == reflect.Pointer && v.Type().Elem().Kind() != reflect.Pointer && implementsText(v.Type().Elem())
 	base := v
 	if ptr {
@@ -169,30 +169,51 @@ func marshalText(v reflect.Value) (string, reflect.Value, error) {
 	}
 	tm, ok := base.Interface().(encoding.TextMarshaler)
 	if !ok {
-		return "", reflect.Value{}, fmt.Errorf("%s has no MarshalText", base.Type())
+		return "", reflect.Value{}, false, fmt.Errorf("%s has no MarshalText", base.Type())
 	}
 	b, err := tm.MarshalText()
 	if err != nil {
-		return "", reflect.Value{}, err
+		return "", reflect.Value{}, false, err
 	}
+	text = padText(string(b), pad)
 	nv := reflect.New(base.Type())
 	tu, ok := nv.Interface().(encoding.TextUnmarshaler)
 	if !ok {
-		return "", reflect.Value{}, fmt.Errorf("*%s has no UnmarshalText", base.Type())
+		return "", reflect.Value{}, false, fmt.Errorf("*%s has no UnmarshalText", base.Type())
 	}
-	if err := tu.UnmarshalText(b); err != nil {
-		return "", reflect.Value{}, err
+	if err := tu.UnmarshalText([]byte(text)); err != nil {
+		if pad == 0 {
+			return "", reflect.Value{}, false, err
+		}
+		// the type itself rejects the padded text: reverse translation must
+		// report an error
+		return text, reflect.Value{}, true, nil
 	}
 	if ptr {
-		return string(b), nv, nil
+		return text, nv, false, nil
 	}
-	return string(b), nv.Elem(), nil
+	return text, nv.Elem(), false, nil
+}
+
+// padText puts whitespace around a text (pad 1: trailing blank; 2: leading tab
+// and trailing newline; 3: whitespace only).  What the text then means is up
+// to the type's own UnmarshalText: kept verbatim, or rejected.
+func padText(s string, pad int) string {
+	switch pad {
+	case 1:
+		return s + " "
+	case 2:
+		return "\t" + s + "\n"
+	case 3:
+		return " \t "
+	}
+	return s
 }
 
 // forwardLeaf converts an original leaf value to the value to write into the
 // translated leaf, following the model's conversion list.  It also returns the
 // value the original leaf is expected to hold after the reverse translation.
-func forwardLeaf(v reflect.Value, f *mfield, dupSet bool) (tv, want reflect.Value, err error) {
+func forwardLeaf(v reflect.Value, f *mfield, dupSet bool, pad int) (tv, want reflect.Value, rejected bool, err error) {
 	cur, want := v, v
 	for _, c := range f.convs {
 		switch c {
@@ -210,28 +231,30 @@ func forwardLeaf(v reflect.Value, f *mfield, dupSet bool) (tv, want reflect.Valu
 			}
 			cur = s
 		case "textunm":
-			s, back, err := marshalText(cur)
+			s, back, rej, err := marshalText(cur, pad)
 			if err != nil {
-				return tv, want, err
+				return tv, want, false, err
 			}
-			if cur.Type() == v.Type() {
+			if rej {
+				rejected = true
+			} else if cur.Type() == v.Type() {
 				want = back
 			}
 			cur = reflect.ValueOf(&s)
 		case "strcast":
 			s, err := renderText(cur)
 			if err != nil {
-				return tv, want, err
+				return tv, want, false, err
 			}
 			cur = reflect.ValueOf(&s)
 		default:
-			return tv, want, fmt.Errorf("unknown conversion %q", c)
+			return tv, want, false, fmt.Errorf("unknown conversion %q", c)
 		}
 	}
 	if cur.Type() != f.rtype {
-		return tv, want, fmt.Errorf("forward conversion of %s yields %s, the model says %s", v.Type(), cur.Type(), f.rtype)
+		return tv, want, false, fmt.Errorf("forward conversion of %s yields %s, the model says %s", v.Type(), cur.Type(), f.rtype)
 	}
-	return cur, want, nil
+	return cur, want, rejected, nil
 }
 
 // makeLeaf builds the non-nil original value of a T0 leaf from a seed.
@@ -441,4 +464,70 @@ func makeValue(t reflect.Type, seed uint64, o shape.ValueOpts) reflect.Value {
 		return m
 	}
 	return shape.MakeValue(t, seed, o)
+}
+
+// addZeroSetMembers returns a deep copy of v in which every non-nil set
+// (map[K]struct{}) at any level -- the leaf itself, sets in elements of slices
+// and arrays of structs, in nested structs -- also has K's zero value ("" / 0)
+// as a member.
+func addZeroSetMembers(v reflect.Value) reflect.Value {
+	c := cloneDeep(v)
+	var walk func(x reflect.Value)
+	walk = func(x reflect.Value) {
+		switch x.Kind() {
+		case reflect.Pointer:
+			if !x.IsNil() {
+				walk(x.Elem())
+			}
+		case reflect.Map:
+			if x.IsNil() {
+				return
+			}
+			if x.Type().Elem() == emptyT {
+				x.SetMapIndex(reflect.Zero(x.Type().Key()), reflect.ValueOf(struct{}{}))
+				return
+			}
+			if x.Type().Elem().Kind() == reflect.Map {
+				it := x.MapRange()
+				for it.Next() {
+					walk(it.Value())
+				}
+			}
+		case reflect.Slice, reflect.Array:
+			for i := 0; i < x.Len(); i++ {
+				walk(x.Index(i))
+			}
+		case reflect.Struct:
+			for i := 0; i < x.NumField(); i++ {
+				if x.Type().Field(i).IsExported() {
+					walk(x.Field(i))
+				}
+			}
+		}
+	}
+	walk(c)
+	return c
+}
+
+// hasSet: a value of type t can hold a set at some level.
+func hasSet(t reflect.Type, depth int) bool {
+	if depth > 6 {
+		return false
+	}
+	switch t.Kind() {
+	case reflect.Map:
+		return t.Elem() == emptyT || hasSet(t.Elem(), depth+1)
+	case reflect.Pointer, reflect.Slice, reflect.Array:
+		return hasSet(t.Elem(), depth+1)
+	case reflect.Struct:
+		if implementsText(t) {
+			return false
+		}
+		for i := 0; i < t.NumField(); i++ {
+			if t.Field(i).IsExported() && hasSet(t.Field(i).Type, depth+1) {
+				return true
+			}
+		}
+	}
+	return false
 }
